@@ -260,7 +260,15 @@ def run_case(ctx, case):
                 ctx.fail("C02.not_well_framed", dict(info, err=str(e)))
                 return done()
             ctx.check(exp.status is not None and code == exp.status, "C02.status", dict(info, got=code))
-            ctx.check(raw == exp.emitted, "C02.aborted_response_bytes", dict(info, raw=raw[:200], want=exp.emitted[:200]))
+            if exp.body_on_bodyless:
+                # same class as below: body bytes were pushed under a 1xx/204 status before the guard struck
+                labels.add("body_forced_on_bodyless_status")
+                if raw:
+                    labels.add("body_after_bodyless_status")
+                    ctx.fail("C02.body_bytes_after_bodyless_status", dict(info, status=code, raw=raw[:200]),
+                             sig="C02.body_bytes_after_bodyless_status.write_flush")
+            else:
+                ctx.check(raw == exp.emitted, "C02.aborted_response_bytes", dict(info, raw=raw[:200], want=exp.emitted[:200]))
             labels.add("abort_partial")
         else:
             labels.add("abort_nothing_sent")
